@@ -543,7 +543,9 @@ def direct_specs(thorough: bool):
     specs = stage_specs(5 if thorough else 4, 4 if thorough else 3)
     if not thorough:
         # the five-leaf disjunctions and five-leaf CNF trees with one conjunction at the root
-        specs += [('cnf', sh, ops, lab) for sh in tree_shapes(5) for ops in (0, 1) for lab in (0, 1)]
+        specs += [('cnf', sh, ops, lab) for sh in tree_shapes(5) for ops in (0, 1, 14, 15) for lab in (0, 1)]
+    # long conjunctions / disjunctions in every association (the re-association loops run once per clause / literal)
+    specs += [('cnf', sh, ops, 0) for n in ((6, 7) if thorough else (6,)) for sh in tree_shapes(n) for ops in (0, 2 ** (n - 1) - 1)]
     lits = (1, -1, 2, 3)
     maxlen = 6 if thorough else 5
     for n in range(1, maxlen + 1):
